@@ -177,11 +177,13 @@ def twoCharTokens : List (Nat × Nat) :=
   [(61, 61), (126, 61), (60, 61), (62, 61), (46, 46), (58, 58), (47, 47), (45, 45), (45, 62),
    (91, 91), (91, 61), (43, 61), (45, 61), (42, 61), (47, 61), (37, 61), (94, 61), (46, 61)]
 
+def inPairs (l : List (Nat × Nat)) (a b : Nat) : Bool := l.any fun p => p.1 == a && p.2 == b
+
 def lexFuse (c₁ c₂ : Nat) : Bool :=
   (isWordChar c₁ && isWordChar c₂)                 -- a name / keyword / numeral keeps going
     || ((48 ≤ c₁ && c₁ ≤ 57) && c₂ == 46)          -- `1` `.`  : the numeral absorbs the dot
     || (c₁ == 46 && (48 ≤ c₂ && c₂ ≤ 57))          -- `.` `5`  : a dot followed by a digit is a numeral
-    || twoCharTokens.contains (c₁, c₂)
+    || inPairs twoCharTokens c₁ c₂
 
 /-- Pairs of `twoCharTokens` that `should_break_with_space` does not separate and that the
 writers never juxtapose as the end of one push and the start of the next, with the reason:
